@@ -481,7 +481,17 @@ def wl1(model):
             (isinstance(n, ast.Assign) and isinstance(n.value, ast.BinOp)
              and any(T.is_const(x, '.tex') for x in ast.walk(n.value)))
             for n in ast.walk(inner)):
-        r.ok(inner, ".tex is appended where missing")
+        app = [n for n in ast.walk(inner) if (isinstance(n, ast.AugAssign) and T.is_const(n.value, '.tex'))
+               or (isinstance(n, ast.Assign) and isinstance(n.value, ast.BinOp)
+                   and any(T.is_const(x, '.tex') for x in ast.walk(n.value)))][0]
+        cond_ok = any(not t and isinstance(e, ast.Call) and T.call_name(e) == 'endswith'
+                      and e.args and T.is_const(e.args[0], '.tex') for e, t in guards.facts(app))
+        if cond_ok:
+            r.ok(inner, ".tex is appended exactly where the name does not end in .tex", nontrivial=True)
+        else:
+            r.fail(app, "'.tex' is appended under another condition than 'the name does not end in "
+                   ".tex': included files whose names contain a dot are not found",
+                   witness='\\input{sec1.2}')
     else:
         r.fail(wl, ".tex is not appended to included names", stmt='append .tex')
     return r
